@@ -27,7 +27,7 @@ ASSUMPTIONS = [
 ]
 CONFIG = {
     'shards': {'quick': 16, 'thorough': 16},
-    'min_nontrivial': {'quick': 500, 'thorough': 3000},
+    'min_nontrivial': {'quick': 500, 'thorough': 1200},
     'required_counters': ['elemental_clause_decided'],
 }
 ANCHORS = [
